@@ -22,4 +22,16 @@ var configs = map[string]propCfg{
 		Rule:       "case = one value tree x all 11 legal indents (exhaustive over indents) + illegal indents; FormatString output must be non-empty valid JSON (both references), decode to the tree's data and to the data of String(), and be reproduced byte for byte by the harness's own canonical re-indenter; non-trivial = tree with >=2 nodes",
 		Thresholds: []thresh{{"evaluations", 1000, 20000}, {"format_calls", 10000, 200000}, {"illegal_indent_calls", 100, 1000}},
 		Assume:     stdAssume},
+	"C03": {Level: "exploration", Arch386: true,
+		Rule:       "case = one RFC 8259 document rendered by the harness's own derivation generator (random whitespace at every legal position, every escape spelling incl. surrogate pairs, ~16 number spelling families, duplicate keys, depth to 50000) from a tree that is the ground truth; references (strict parser, encoding/json) are consulted first and a disagreement among them is a harness fault; the library's tree is compared slot by slot (ints exact, floats ==, strings bytewise); escape sweep = every scalar value x 4 spellings in value and key position; non-trivial = tree with >=2 nodes; distinct by document text hash",
+		Thresholds: []thresh{{"evaluations", 5000, 200000}, {"docs_with_u_escape", 500, 20000}, {"docs_with_escaped_slash", 50, 2000}, {"docs_with_surrogate_pair", 100, 5000}, {"docs_heavy_whitespace", 500, 20000}, {"number_literals", 5000, 200000}, {"escape_sweep_spellings", 30000, 4000000}},
+		Assume:     stdAssume},
+	"C04": {Level: "exploration", Arch386: false,
+		Rule:       "case = one byte string given to both parsers (random bytes, token soup incl. every ill-formed UTF-8 class, structure-aware mutations of valid documents) judged by the outcome predicate (no panic / fatal error, exactly one of container and error non-nil, container usable, second run identical); plus every cut point of String() of hostile trees (must be rejected), every ill-formed UTF-8 class injected at every byte offset inside the root brackets (must be rejected), ParseFile vs ParseObject on file contents, unreadable paths, an EIO read fault injected with strace, a nesting-depth sweep and a reduced-stack probe in an isolated child; termination is judged by RLIMIT_CPU with a confirmation re-run; distinct by input hash",
+		Thresholds: []thresh{{"evaluations", 100000, 3000000}, {"prefix_cuts", 5000, 100000}, {"illformed_injections", 5000, 200000}, {"parsefile_calls", 100, 3000}, {"badpath_calls", 5, 5}, {"inputs_invalid_utf8", 10000, 300000}, {"soup_accepted_list", 100, 3000}, {"soup_accepted_object", 100, 3000}, {"stackprobe_runs", 2, 2}},
+		Assume:     append([]string{"strace/ptrace may be unavailable: the read-fault sub-check then counts as skipped (see observed.readfault_skipped)"}, stdAssume...)},
+	"C20": {Level: "exploration",
+		Rule:       "case = one document with exactly one injected syntax error at a known byte offset (K1 invalid literal in value position, K2 garbage where a key must start, K3 wrong character instead of ':', K4 stray character after a nested container in an object) at any depth, newlines at random legal positions, optional preamble with newlines before the root bracket; the cited line must be in the accepted set {lines of the injected token's characters, line of the delimiter that terminates an invalid literal}, counted from byte 0 of the input; cases whose message does not quote the injected token are vacuous and only counted; distinct by document hash",
+		Thresholds: []thresh{{"line_citing_errors", 2000, 150000}, {"kind/K1", 300, 20000}, {"kind/K2", 150, 10000}, {"kind/K3", 150, 10000}, {"kind/K4", 100, 5000}, {"max_line_cited", 8, 15}, {"via_parsefile", 10, 1000}},
+		Assume:     stdAssume},
 }
